@@ -179,6 +179,7 @@ Step(s, ins, i) ==
                    ELSE [s1 EXCEPT !.need = AddN(@, "ReturnInGlobalScopeError", 0, 1)]
          IN CloseSingles(PushKind(s2, "exprstmt"))
     [] ins.op = "break" -> CloseSingles(PushKind(s, "break"))
+    [] ins.op = "gphase" -> CloseSingles(PushKind(s, "gphase"))
     [] ins.op = "pragma" -> CloseSingles(PushKind(s, "pragma"))
     [] ins.op = "annot" -> [s EXCEPT !.pendingAnnot = TRUE]
     [] ins.op = "std" -> DeclareStd(s, 1)
@@ -196,7 +197,9 @@ Step(s, ins, i) ==
              s2 == Open(s1, ins, i, "else")
          IN [s2 EXCEPT !.open = [@ EXCEPT ![Len(@)].thenb = ifnode[2]]]
     [] ins.op = "for" ->
-         LET s1 == Open(s, ins, i, "for") IN Declare(s1, ins.v, "var", 0, 0)
+         (* a name in the iterable is used in the enclosing scope, before the loop variable exists *)
+         LET s0 == IF ins.it \in {"rn", "sn", "id"} THEN Use(s, ins.x) ELSE s
+             s1 == Open(s0, ins, i, "for") IN Declare(s1, ins.v, "var", 0, 0)
     [] ins.op = "gate" ->
          LET s1 == Open(NotGlobal(s), ins, i, "gate") IN DeclareAll(DeclareAll(s1, ins.ps, "angle"), ins.qs, "qubit")
     [] ins.op = "def" ->
